@@ -1,6 +1,6 @@
 SPECIFICATION Spec
 CONSTANTS
   TraceFile = "trace.ndjson"
-INVARIANT InvC01
+INVARIANT InvC07
 POSTCONDITION Accepted
 CHECK_DEADLOCK FALSE
